@@ -825,9 +825,20 @@ package main
 //@   ensures @everything-else-is-hashed-with-its-own-package: r1 && !(dyntypeis(obj, *types.Var) && obj.(*types.Var).IsField()) ==> r0 == old(hashWithPackage(now(lastListed), obj.Name()))
 //@ end
 
+//@ ghost mapAsked ref
+//@ ghost mapName string
+//@ ghost mapOK bool
+
 //@ hookset mapnames
 //@ hook before (*mvdan.cc/garble.transformer).obfuscatedObjectName(t, o)
 //@   assert("map-asks-the-transformer-built-for-the-package-being-listed", t == tf && t.curPkg == lpkg)
+//@   assert("map-asks-about-the-object-it-is-looking-at", o == obj)
+//@ hook after (*mvdan.cc/garble.transformer).obfuscatedObjectName(t, o) (n, ok)
+//@   mapAsked = o
+//@   mapName = n
+//@   mapOK = ok
+//@ hook before (*golang.org/x/tools/go/types/objectpath.Encoder).For(en, o)
+//@   assert("map-lists-an-object-only-under-the-name-the-naming-decision-gave-that-very-object", o == obj && mapAsked == obj && mapOK && newName == mapName)
 //@ hook before (*mvdan.cc/garble.listedPackage).obfuscatedImportPath(p)
 //@   assert("map-reports-the-path-of-the-package-being-listed", p == lpkg && lpkg.ToObfuscate)
 //@ hook before mvdan.cc/garble.transformerForListedPackage(p)
@@ -1269,4 +1280,55 @@ package main
 //@   case_calls *types.Alias: !Rhs, !recordFieldToStruct
 //@   case_calls *types.Named: !Origin, !Underlying, !recordFieldToStruct
 //@   case_calls *types.Struct: !Fields, !Origin, !Embedded, Type, recordFieldToStruct, panic, Sprintf
+//@ end
+
+// ---- C01: names in assembly files are rewritten with the same hashes as the Go code ----
+// The scans that delimit a package path and a name accept exactly letters, digits and '_' (and '∕' for
+// paths, '·' inside a dotted path): each scan continues only over such runes and stops at the first
+// rune outside the class. The package is looked up from the package being assembled, its path is
+// replaced only if it is selected for obfuscation, and the name is hashed with that package unless it is
+// a compiler intrinsic.
+
+//@ ghost backRune int
+//@ ghost fwdRune int
+//@ ghost asmScanned bool
+//@ ghost asmListed *listedPackage
+
+//@ hookset asmnames
+//@ hook after unicode/utf8.DecodeLastRune(p) (r, n)
+//@   backRune = r
+//@ hook after unicode/utf8.DecodeRune(p) (r, n)
+//@   fwdRune = r
+//@ hook before (*bytes.Buffer).WriteRune(b, r)
+//@   assert("the-package-path-starts-after-the-first-rune-that-cannot-be-part-of-one", pkgStart < 0 || !(unicode.IsLetter(backRune) || unicode.IsDigit(backRune) || backRune == '_' || backRune == '∕'))
+//@   assert("the-middle-dot-is-written-back", r == '·')
+//@   asmScanned = true
+//@ hook before mvdan.cc/garble.listPackage(from, path)
+//@   assert("qualified-names-are-resolved-from-the-package-being-assembled", from == tf.curPkg)
+//@   assert("assembly-spelling-of-the-path-is-converted-to-the-go-spelling", path == strings.ReplaceAll(strings.ReplaceAll(asmPkgPath, "·", "."), "∕", "/"))
+//@ hook after mvdan.cc/garble.listPackage(from, path) (lp, err)
+//@   asmListed = lp
+//@ hook before (*mvdan.cc/garble.listedPackage).obfuscatedImportPath(p)
+//@   assert("path-is-replaced-only-for-selected-packages-by-their-obfuscated-path", p == lpkg && lpkg.ToObfuscate)
+//@ hook before mvdan.cc/garble.hashWithPackage(pkg, n)
+//@   assert("names-are-hashed-with-the-package-that-declares-them-unless-intrinsic", pkg == lpkg && lpkg.ToObfuscate && !compilerIntrinsics[lpkg.ImportPath][n] && n == name)
+//@ end
+
+//@ func (*transformer).replaceAsmNames
+//@   property C01
+//@   hooks asmnames
+//@   requires tf != nil && tf.curPkg != nil && !asmScanned
+//@   skip safety
+//@   may_panic when true
+//@   unclaimed hashWithPackage/requires because an empty name after a middle dot does not assemble
+//@   unclaimed obfuscatedImportPath/requires because listed packages have non-empty import paths by construction of go list
+//@   loop 0
+//@     invariant @a-name-ends-at-the-first-rune-that-cannot-be-part-of-an-identifier: asmScanned && len(remaining) > 0 ==> !(unicode.IsLetter(fwdRune) || unicode.IsDigit(fwdRune) || fwdRune == '_')
+//@     invariant tf.curPkg != nil
+//@   loop 1
+//@     invariant @the-backward-scan-only-crosses-path-runes: pkgStart < periodIdx ==> unicode.IsLetter(backRune) || unicode.IsDigit(backRune) || backRune == '_' || backRune == '∕'
+//@   loop 2
+//@     invariant @the-forward-scan-only-crosses-path-runes-and-middle-dots: i > pkgEnd + asmPeriodLen ==> fwdRune == '·' || unicode.IsLetter(fwdRune) || unicode.IsDigit(fwdRune) || fwdRune == '_' || fwdRune == '∕'
+//@   loop 3
+//@     invariant @the-name-scan-only-crosses-identifier-runes: nameEnd > 0 ==> unicode.IsLetter(fwdRune) || unicode.IsDigit(fwdRune) || fwdRune == '_'
 //@ end
